@@ -11,10 +11,11 @@ ID = "C09"
 LEAN_MODULES = ["NdInterp.Props.C09", "NdInterp.Props.C14"]
 THEOREM_FILES = [("NdInterp/Props/C09.lean", "C09_")]
 RULE = ("instantiations Dq in {Ix0..Ix4 static, IxDyn rank 0..3} x D in {Ix1..Ix6 static, IxDyn} for Interp1D (Linear, CubicSpline) and "
-        "Interp2D (Bilinear), incl. zero-length query axes and zero-length trailing data axes, combined rank > 6 (dynamic result). Each group "
+        "Interp2D (Bilinear), incl. zero-length query axes and zero-length trailing data axes, combined rank > 6 (dynamic result). Each group (query arrays and buffers in every memory layout: C, F, strided, reversed, permuted, window) "
         "runs interp_array, interp_array_into, and interp / interp_into / interp_scalar per element on the real code; oracle: shape = query "
         "shape ++ trailing dims and block k of the batch == single result of element k, exactly at Q and bit for bit at f64; every case also "
-        "goes through the model correspondence. non-trivial = batch with >= 2 elements or an empty axis")
+        "goes through the model correspondence. f64 groups with special data (inf, NaN, +-1e308 next to each other) and queries exactly on "
+        "knots compare every entry point incl. interp_into and interp_scalar bit for bit (all NaNs equal). non-trivial = batch with >= 2 elements or an empty axis")
 PARTIAL = []
 ASSUMPTIONS = []
 
@@ -26,6 +27,17 @@ def qshape_for(rng, rank, allow_zero):
     return dims
 
 
+def special_data(rng, flat):
+    """f64 data where a strategy does not reproduce the samples bit for bit at the knots: infinities, NaN, differences that overflow"""
+    import math
+    pool = [math.inf, -math.inf, math.nan, 1e308, -1e308, 1.7e308, -1.7e308, 5e-324, 0.0, -0.0]
+    out = list(flat)
+    for i in range(len(out)):
+        if rng.random() < 0.5:
+            out[i] = rng.choice(pool)
+    return out
+
+
 def generate(rng, tier):
     return build_groups(rng, tier)[0]
 
@@ -33,15 +45,25 @@ def generate(rng, tier):
 def build_groups(rng, tier):
     cases, groups = [], []
     reps = 110 if tier == "quick" else 2500
-    for _ in range(reps):
-        S = rng.choice(["Q", "F"])
-        two_d = rng.random() < 0.35
+    forced_n = 40 if tier == "quick" else 600
+    for rep in range(reps + forced_n):
+        forced = rep >= reps        # dedicated family: rank-1 f64 data with non-finite / huge samples, queries on the knots
+        S = "F" if forced else rng.choice(["Q", "F"])
+        special = forced or (S == "F" and rng.random() < 0.35)
+        two_d = (not forced) and rng.random() < 0.35
         drank = rng.choice([2, 2, 3, 4, 5, 6, 7] if two_d else [1, 1, 2, 3, 4, 5, 6, 7])
+        if forced:
+            drank = rng.choice([1, 1, 1, 2])
         allow_zero = rng.random() < 0.25
         k = 2 if two_d else 1
         trailing = [rng.choice([1, 2] + ([0] if allow_zero else [])) for _ in range(drank - k)]
         qrank = rng.choice([0, 1, 1, 2, 3, 4])
+        if forced:
+            allow_zero = False
+            qrank = rng.choice([1, 1, 2])
         qshape = qshape_for(rng, qrank, allow_zero)
+        if forced:
+            qshape[0] = 3
         dtag = "sta" if drank <= 6 and rng.random() < 0.7 else "dyn"
         qtag = "sta" if rng.random() < 0.7 else "dyn"
         if qtag == "dyn" and qrank > 3:
@@ -61,12 +83,16 @@ def build_groups(rng, tier):
                 flat = [rng.uniform(-3, 3) for _ in range(size)]
                 qx = [rng.uniform(xs[0], xs[-1]) for _ in range(nq)]
                 qy = [rng.uniform(ys[0], ys[-1]) for _ in range(nq)]
+                if special:
+                    flat = special_data(rng, flat)
+                    qx = [rng.choice(xs) if rng.random() < 0.6 else q for q in qx]
+                    qy = [rng.choice(ys) if rng.random() < 0.6 else q for q in qy]
             mk = lambda e, dt=dtag: i2_line(S, xs, ys, shape, flat, False, e, dtag=dt)
-            batch = mk(e_array(S, qshape, qx, qy, qtag=qtag))
-            into = mk(e_ainto(S, qshape, qshape + trailing, qx, qy, qtag=qtag, blay=rng.choice(gen.LAYS_ND)))
-            singles = [mk(e_single(S, a, b)) for a, b in zip(qx, qy)][:6]
+            batch = mk(e_array(S, qshape, qx, qy, qtag=qtag, lay=rng.choice(gen.LAYS_ND)))
+            into = mk(e_ainto(S, qshape, qshape + trailing, qx, qy, qtag=qtag, lay=rng.choice(gen.LAYS_ND), blay=rng.choice(gen.LAYS_ND)))
+            singles = [(mk(e_single(S, a, b)), k_) for k_, (a, b) in enumerate(zip(qx, qy))][:6]
             if not trailing and dtag == "sta":
-                singles += [mk(e_scalar(S, a, b)) for a, b in zip(qx, qy)][:3]
+                singles += [(mk(e_scalar(S, a, b)), k_) for k_, (a, b) in enumerate(zip(qx, qy))][:3]
         else:
             n = rng.choice([3, 4])
             shape = [n] + trailing
@@ -79,22 +105,40 @@ def build_groups(rng, tier):
             else:
                 xs = gen.axis_f(rng, n, "random"); flat = [rng.uniform(-3, 3) for _ in range(size)]
                 qs = [rng.uniform(xs[0], xs[-1]) for _ in range(nq)]
+                if special:
+                    flat = special_data(rng, flat)
+                    qs = [rng.choice(xs) if rng.random() < 0.6 else q for q in qs]
             strat = ("spl", False, rng.choice(["nak", "nat", "cla"])) if spl else ("lin", False)
             mk = lambda e, dt=dtag: i1_line(S, xs, shape, flat, strat, e, dtag=dt)
-            batch = mk(e_array(S, qshape, qs, qtag=qtag))
-            into = mk(e_ainto(S, qshape, qshape + trailing, qs, qtag=qtag, blay=rng.choice(gen.LAYS_ND)))
-            singles = [mk(e_single(S, q)) for q in qs][:6]
-            singles += [mk(e_into(S, q, trailing, rng.choice(gen.LAYS_ND))) for q in qs][:2]
+            batch = mk(e_array(S, qshape, qs, qtag=qtag, lay=rng.choice(gen.LAYS_ND)))
+            into = mk(e_ainto(S, qshape, qshape + trailing, qs, qtag=qtag, lay=rng.choice(gen.LAYS_ND), blay=rng.choice(gen.LAYS_ND)))
+            singles = [(mk(e_single(S, q)), k_) for k_, q in enumerate(qs)][:6]
+            singles += [(mk(e_into(S, q, trailing, rng.choice(gen.LAYS_ND))), k_) for k_, q in enumerate(qs)][:2]
             if not trailing:
-                singles += [mk(e_scalar(S, q), "sta") for q in qs][:3]
+                singles += [(mk(e_scalar(S, q), "sta"), k_) for k_, q in enumerate(qs)][:3]
         want_shape = qshape + trailing
         base = len(cases)
-        cases.append({"line": batch, "meta": {"shape": want_shape, "nq": nq}})
-        cases.append({"line": into, "meta": {"shape": want_shape, "nq": nq}})
-        for s_ in singles:
-            cases.append({"line": s_, "meta": {"shape": None, "nq": 1}})
-        groups.append((base, base + 1, list(range(base + 2, base + 2 + len(singles))), gen.shape_size(trailing), nq))
+        cases.append({"line": batch, "meta": {"shape": want_shape, "nq": nq, "special": special}})
+        cases.append({"line": into, "meta": {"shape": want_shape, "nq": nq, "special": special}})
+        for s_, _k in singles:
+            cases.append({"line": s_, "meta": {"shape": None, "nq": 1, "special": special}})
+        groups.append((base, base + 1, [(base + 2 + j, k_) for j, (_s, k_) in enumerate(singles)], gen.shape_size(trailing), nq))
     return cases, groups
+
+
+def canon(vals):
+    """f64 results are compared bit for bit except that every NaN counts as the same value"""
+    out = []
+    for v in vals:
+        if isinstance(v, str) and len(v) == 16 and "/" not in v:
+            try:
+                b = int(v, 16)
+                if (b >> 52) & 0x7FF == 0x7FF and b & ((1 << 52) - 1):
+                    v = "nan"
+            except ValueError:
+                pass
+        out.append(v)
+    return out
 
 
 def nontrivial(case, res):
@@ -126,18 +170,17 @@ def extra(rng, tier):
             continue
         if outs[i].split("!")[0].strip() != outs[b]:
             fails.append({"line": lines[i], "impl": outs[i][:200], "required": f"interp_array_into must write exactly what interp_array returns: {outs[b][:200]}"})
-        for k, s in enumerate(singles):
+        for s, idx in singles:
             rs = Result(outs[s])
             if rs.kind != "ok":
                 fails.append({"line": lines[s], "impl": outs[s][:200], "required": "in-range single query must be answered"})
                 continue
-            # which element? singles are the first <=6 (single), then into, then scalar, all of the leading elements
-            idx = k if k < min(6, nq) else None
-            if idx is None:
+            if rs.extra:
+                fails.append({"line": lines[s], "impl": outs[s][:200], "required": "buffer accounting: " + rs.extra})
                 continue
             checked += 1
-            want = rb.vals[idx * L:(idx + 1) * L]
-            if rs.vals != want:
+            want = canon(rb.vals[idx * L:(idx + 1) * L])
+            if canon(rs.vals) != want:
                 fails.append({"line": lines[b], "impl": outs[b][:300],
                               "required": f"block {idx} of interp_array must equal interp(q[{idx}]) = {rs.vals} (case `{lines[s][:200]}`), got {want}"})
     return {"nontrivial": checked, "evaluations": len(lines), "failures": fails[:20], "hist": {"groups": len(groups), "element_comparisons": checked}}
